@@ -195,6 +195,7 @@ pub fn check_ws(ws: &WorkspaceSpec, info: &mut CaseInfo) -> Outcome {
 
 pub fn run(ctx: &Ctx) {
     ctx.run_prop("lib", ctx.tier.pick(16_000, 800_000), 16, || workspace(cfg()).prop_map(|ws| Case { ws }), |c, info| check_ws(&c.ws, info));
+    ctx.run_prop_shrink("lsp", ctx.tier.pick(100, 2500), 8, 150, || workspace(lsp_cfg()).prop_map(|ws| Case { ws }), |c, info| crate::props::lsp_tiers::c02_references(ctx, &c.ws, info));
     // bounded-exhaustive: every override chain over the 8 provider slots (which slots define the
     // name x which of those definitions request their own name x 2 analysis orders = 3^8 x 2)
     let all = crate::exh::all_with_self();
@@ -205,9 +206,17 @@ pub fn run(ctx: &Ctx) {
     });
 }
 
-pub fn judge(_ctx: &Ctx, sub: &str, case: &Value) -> Option<Outcome> {
+pub fn lsp_cfg() -> GenCfg {
+    GenCfg { names: 2, self_dep_bias: 6, max_depth: 3, max_items: 3, allow_dups_in_file: false, noise: false, ..GenCfg::default() }
+}
+
+pub fn judge(ctx: &Ctx, sub: &str, case: &Value) -> Option<Outcome> {
     let mut info = CaseInfo::default();
     match sub {
+        "lsp" => {
+            let c: Case = from_case(case)?;
+            Some(crate::props::lsp_tiers::c02_references(ctx, &c.ws, &mut info))
+        }
         "lib" => {
             let c: Case = from_case(case)?;
             Some(check_ws(&c.ws, &mut info))
